@@ -83,7 +83,7 @@ static void optCase(Rng &rng, CaseResult &r, unsigned mask, bool reorderOnly = f
     if (reorderHeavy && rng.chance(reorderOnly ? 0.85 : 0.5)) op.kind = 3;
     if (op.kind == 0 || op.kind == 1) { op.a = (int)rng.range(0, 4); op.b = (int)rng.range(0, 10); }
     else if (op.kind == 2) { op.a = (int)rng.range(1, 6); op.b = (int)rng.range(2, 40); }
-    else { op.a = (int)rng.range(1, reorderHeavy ? 4 : 3); op.b = (int)rng.range(2, reorderHeavy ? 7 : 5); }
+    else { op.a = (int)rng.range(1, reorderHeavy ? 4 : 3); op.b = (int)rng.range(2, reorderHeavy ? (op.a >= 3 ? 6 : 7) : 5); }  // 7 cells over 3-4 rows: minutes of search
     ops.push_back(op);
     od << (op.kind == 0 ? "swaps" : op.kind == 1 ? "inserts" : op.kind == 2 ? "shifts" : "reorder") << "(" << op.a << "," << op.b << ") ";
   }
@@ -454,14 +454,14 @@ static void walkCase(Rng &rng, CaseResult &r) {
 
 int main(int argc, char **argv) {
   std::vector<vf::Part> parts;
-  parts.push_back({"c02.opt", [](uint64_t, Rng &rng, CaseResult &r) { optCase(rng, r, O_C02); }, 20});
-  parts.push_back({"c04.opt", [](uint64_t, Rng &rng, CaseResult &r) { optCase(rng, r, O_C04); }, 30});
-  parts.push_back({"c02.reorder", [](uint64_t, Rng &rng, CaseResult &r) { optCase(rng, r, O_C02, true); }, 30});
-  parts.push_back({"c04.reorder", [](uint64_t, Rng &rng, CaseResult &r) { optCase(rng, r, O_C04, true); }, 30});
-  parts.push_back({"c05.reorder", [](uint64_t, Rng &rng, CaseResult &r) { optCase(rng, r, O_C05, true); }, 30});
-  parts.push_back({"c09.reorder", [](uint64_t, Rng &rng, CaseResult &r) { optCase(rng, r, O_C09, true); }, 30});
-  parts.push_back({"c05.opt", [](uint64_t, Rng &rng, CaseResult &r) { optCase(rng, r, O_C05); }, 20});
-  parts.push_back({"c09.opt", [](uint64_t, Rng &rng, CaseResult &r) { optCase(rng, r, O_C09); }, 20});
+  parts.push_back({"c02.opt", [](uint64_t, Rng &rng, CaseResult &r) { optCase(rng, r, O_C02); }, 60});
+  parts.push_back({"c04.opt", [](uint64_t, Rng &rng, CaseResult &r) { optCase(rng, r, O_C04); }, 60});
+  parts.push_back({"c02.reorder", [](uint64_t, Rng &rng, CaseResult &r) { optCase(rng, r, O_C02, true); }, 60});
+  parts.push_back({"c04.reorder", [](uint64_t, Rng &rng, CaseResult &r) { optCase(rng, r, O_C04, true); }, 60});
+  parts.push_back({"c05.reorder", [](uint64_t, Rng &rng, CaseResult &r) { optCase(rng, r, O_C05, true); }, 60});
+  parts.push_back({"c09.reorder", [](uint64_t, Rng &rng, CaseResult &r) { optCase(rng, r, O_C09, true); }, 60});
+  parts.push_back({"c05.opt", [](uint64_t, Rng &rng, CaseResult &r) { optCase(rng, r, O_C05); }, 60});
+  parts.push_back({"c09.opt", [](uint64_t, Rng &rng, CaseResult &r) { optCase(rng, r, O_C09); }, 60});
   parts.push_back({"c02.ds.closure", [](uint64_t idx, Rng &, CaseResult &r) { closureCase(idx, r); }, 30});
   parts.push_back({"c02.ds.walk", [](uint64_t, Rng &rng, CaseResult &r) { walkCase(rng, r); }, 10});
   return vf::runMain(argc, argv, parts);
